@@ -15,6 +15,11 @@ func (p *Prog) LogicalCallers(fn *ssa.Function) []*ssa.Function {
 	seen := map[*ssa.Function]bool{}
 	var out []*ssa.Function
 	for _, e := range p.CallersOf(fn) {
+		// a promoted-method wrapper that go/ssa made for an embedding type and that nothing calls
+		// ((*Hub).store, because Hub embeds the record whose method store is) is no caller
+		if c := e.Caller.Func; c.Synthetic != "" && c.Parent() == nil && len(p.CallersOf(c)) == 0 {
+			continue
+		}
 		if !seen[e.Caller.Func] {
 			seen[e.Caller.Func] = true
 			out = append(out, e.Caller.Func)
